@@ -7,6 +7,7 @@
 //   * exhaustive active-set enumeration for tiny instances
 #ifndef VERIF_QP_ORACLE_H
 #define VERIF_QP_ORACLE_H
+#include <ctime>
 #include <vector>
 #include <cmath>
 #include <algorithm>
@@ -176,7 +177,10 @@ inline Result solve(const Inst &I, long maxSweeps = 200000) {
         return false;
     };
     long sweep = 0; long nextPolish = 50;
+    // CPU budget: a reference solver that takes longer than this gives up (the case is then inconclusive, never a verdict)
+    const clock_t t0 = clock(); const double budgetSeconds = 5.0;
     for (; sweep < maxSweeps; sweep++) {
+        if ((sweep & 63) == 63 && (double)(clock() - t0) / CLOCKS_PER_SEC > budgetSeconds) { R.sweeps = sweep; return R; }
         LD maxch = 0;
         for (size_t c = 0; c < m; c++) {
             if (den[c] <= 0) continue;
